@@ -135,6 +135,19 @@ def c10_oracle(op, impl):
     t = op.split(" ")
     if t[0] != "x.rt":
         return None
+    # a key id is exactly 33 bytes: a body of any other length under an id header (e.g. the 32 bytes of a key) is no id
+    body_len = None
+    if t[2] == "id":
+        import base64
+        body = unhex(t[7]).rsplit(b".", 1)[-1]
+        try:
+            body_len = len(base64.urlsafe_b64decode(body + b"=" * (-len(body) % 4)))
+        except Exception:
+            body_len = -1
+        if body_len != 33:
+            if "acc=1" in impl:
+                return ("a %d-byte body under the %s id header was accepted by the %s/%s/%s parser" % (body_len, t[3], t[4], t[5], t[6]), "core/cross/id-length")
+            return None
     if "acc=1" in impl and "same=0" in impl:
         return ("a %s/%s/%s value was accepted by the %s/%s/%s parser" % (t[1], t[2], t[3], t[4], t[5], t[6]), "core/cross/%s-%s" % (t[2], t[5]))
     # intended aliases, stated independently of the code's header constants: same protocol version, same form, and the
